@@ -132,6 +132,45 @@ pub fn gen_weak(prop: &str, seed: u64) -> RunDesc {
     d
 }
 
+/// chain-mid: a chain longer than the depth cap whose node at (or next to) the cap has a second
+/// incoming link from a global cell. The head is released and its deferred attempt sealed; the
+/// clock moves; a reader pins and loads the node from the cell; the cell is cleared during that
+/// critical section (count 2 -> 1, nothing deferred); then the old attempt expires and the
+/// cascade runs into the node. Whatever the cascade does with a node at its depth cap, the
+/// node was unlinked during the reader's critical section and must outlive it (C13, C02).
+pub fn gen_mid(prop: &str, seed: u64) -> RunDesc {
+    let mut d = gen(prop, seed, false);
+    let mut rng = Rng::new(seed ^ 0x31D);
+    let n = *rng.pick(&[1030u64, 1500, 2050, 2500, 3100]);
+    let at = match rng.below(10) {
+        0 => 1023,
+        1 => 1025,
+        2 if n > 2048 => 2048,
+        3 => 1 + rng.below(n - 1),
+        _ => 1024,
+    };
+    if let J::Obj(m) = &mut d.params {
+        m.insert("n".into(), J::Int(n as i64));
+        m.insert("shape".into(), J::Str("chain".into()));
+        m.insert("hold_at".into(), J::Int(at as i64));
+        m.insert("mid_reader".into(), J::Bool(true));
+        m.insert("clock_moves".into(), J::Int(rng.below(6) as i64));
+        m.insert("rounds_under_reader".into(), J::Int(3 + rng.below(6) as i64));
+        m.insert("noise_threads".into(), J::Int(0));
+        m.insert("payload_words".into(), J::Int(0));
+        m.insert("revive_head".into(), J::Int(0));
+        m.insert("drop_in_tls".into(), J::Int(0));
+        m.insert("age_rounds".into(), J::Int(rng.below(6) as i64));
+    }
+    d.threads.truncate(1);
+    let mut r = ThreadProg::new(0, vec![]);
+    r.name = "mid-reader".into();
+    d.threads.push(r);
+    d.family = "chain-mid".into();
+    d.cfg.step_cap = 2_000_000 + 60 * n;
+    d
+}
+
 pub fn gen(prop: &str, seed: u64, stack: bool) -> RunDesc {
     let mut rng = Rng::new(seed);
     let mut cfg = RunCfg::default();
@@ -407,6 +446,8 @@ static DROP_IN_TLS: AtomicU64 = AtomicU64::new(0);
 /// 1: the head is revived by Weak::upgrade right after its last owner went, and released again;
 /// 2: somebody only looks at it through weak.snapshot().upgrade() (consumed by the first release)
 static REVIVE: AtomicU64 = AtomicU64::new(0);
+/// chain-mid: address of the leaked global cell that holds the second link (an `AtomicRc<CNode<0>>`)
+static MID_PTR: AtomicUsize = AtomicUsize::new(0);
 static HANDOFF: std::sync::Mutex<Option<Box<dyn FnOnce() + Send>>> = std::sync::Mutex::new(None);
 
 struct TlsDrop(Option<Box<dyn FnOnce() + Send>>);
@@ -521,7 +562,48 @@ fn destroyer<const W: usize>(desc: &RunDesc, out: &mut Vec<(String, String)>, fa
     }
     user_yield();
     let max_rounds = 40 * bound(total) + 200;
-    if !held.is_null() {
+    if !held.is_null() && p.getb("mid_reader") {
+        let h = hold_at as u64;
+        let me = sched::my_tid();
+        let mid: &'static AtomicRc<CNode<W>> = Box::leak(Box::new(AtomicRc::from(held)));
+        MID_PTR.store(mid as *const _ as usize, Relaxed);
+        drop(head);
+        round(); // the head's deferred attempt is sealed now
+        for _ in 0..p.getu("clock_moves") {
+            let g = circ::cs();
+            circ::verif::try_advance(&g);
+            drop(g);
+            user_yield();
+        }
+        sim().raise_signal(2);
+        sim().await_signal(me, 3);
+        // the reader is pinned and has loaded the node from the cell
+        HELD_FROM.store(h, Relaxed);
+        {
+            let g = circ::cs();
+            drop(mid.swap(Rc::null(), SeqCst));
+            drop(g);
+        }
+        let mut rounds = 0u64;
+        for _ in 0..p.getu("rounds_under_reader") {
+            round();
+            rounds += 1;
+        }
+        if DROPS.load(Relaxed) >= h.min(1024) {
+            sim().probe("cascade_ran_under_mid_reader");
+        }
+        if HELD_VIOLATED.load(Relaxed) != u64::MAX {
+            soft("reader-lost-unlinked-node", format!("node {} of a {}-node chain was destructed inside the critical section of a reader that had loaded node {} from a second link; that link was cleared (and the chain's head attempt ran) during this critical section", HELD_VIOLATED.load(Relaxed), total, h));
+        }
+        HELD_FROM.store(u64::MAX, Relaxed);
+        sim().raise_signal(4);
+        user_yield();
+        while DROPS.load(Relaxed) < total && rounds < max_rounds {
+            round();
+            rounds += 1;
+        }
+        fam.put("rounds", rounds);
+    } else if !held.is_null() {
         let h = hold_at as u64;
         HELD_FROM.store(h, Relaxed);
         let r = release_and_wait(head, h, max_rounds);
@@ -664,7 +746,24 @@ pub fn run(desc: &RunDesc) -> ! {
     if desc.params.getu("drop_in_tls") != 0 {
         specs.push(ThreadSpec { phase: 0, stack: (desc.threads[0].stack_kib as usize) << 10, name: "tls-dropper", body: Arc::new(tls_dropper) });
     }
-    for t in desc.threads.iter().skip(1) {
+    if desc.params.getb("mid_reader") {
+        specs.push(ThreadSpec {
+            phase: 0,
+            stack: 1 << 20,
+            name: "mid-reader",
+            body: Arc::new(move |tid| {
+                sim().await_signal(tid, 2);
+                let g = circ::cs();
+                let mid = unsafe { &*(MID_PTR.load(Relaxed) as *const AtomicRc<CNode<0>>) };
+                let s = mid.load(SeqCst, &g);
+                let _ = s.as_ref().map(|n| n.id);
+                sim().raise_signal(3);
+                sim().await_signal(tid, 4);
+                drop(g);
+            }),
+        });
+    }
+    for t in desc.threads.iter().skip(1).filter(|t| t.name != "mid-reader") {
         let ops = t.ops.clone();
         specs.push(ThreadSpec {
             phase: 0,
@@ -703,7 +802,7 @@ pub fn run(desc: &RunDesc) -> ! {
     let attributed: Vec<(String, String, String)> = softs
         .iter()
         .map(|(s, d)| {
-            let p = if s.starts_with("upgrade") { "C05" } else if s.starts_with("stack") || s.starts_with("recursion") { "C07" } else if s.starts_with("latency") || s.starts_with("held") || s.starts_with("C06") { "C06" } else { prop.as_str() };
+            let p = if s.starts_with("reader-lost") { "C13" } else if s.starts_with("upgrade") { "C05" } else if s.starts_with("stack") || s.starts_with("recursion") { "C07" } else if s.starts_with("latency") || s.starts_with("held") || s.starts_with("C06") { "C06" } else { prop.as_str() };
             (p.to_string(), format!("{}/{}", p, s), d.clone())
         })
         .collect();
